@@ -554,13 +554,39 @@ def sub_rule(repo, res, tier, rule="SK-SUB"):
                         consumes.append((n, has_tr, acts, inner))
         rec("S-shape", len(accepts) == 1 and len(exits) == 1 and len(consumes) == 1, f"literal pass has {len(accepts)} exact-match, {len(exits)} typed-text-is-prefix-of-literal and {len(consumes)} literal-is-prefix-of-typed-text tests", lit_for.line)
         if len(accepts) == 1 and len(exits) == 1 and len(consumes) == 1:
-            # S2: contradiction rule -- an exit inside the same pass as the acceptance
-            same_pass = True
-            ex_before = (exits[0][0].line < accepts[0][0].line)
-            rec("S2:equality-scan-before-prefix-exit", False if same_pass else True,
-                "one pass over the ids holds both the exit `typed text is a proper prefix of literal i` (break out of the matcher) and the acceptance `typed text equals literal j`: with values a|abc|abcd and typed `abc`, "
-                "the exit fires at `abcd` (longer, visited first) before the equality with `abc` is reached", exits[0][0].line)
+            # S2: contradiction rule -- literals are visited longest first, so the exit "typed remainder is a proper prefix of
+            # literal i" is reached before the equality with a shorter literal j; a complete earlier word (matches mode) must
+            # therefore never take that exit.  Accepted forms: the exit's own condition carries `$mode != matches`
+            # (or `$mode = complete`), or the exit sits inside an `if` on that test.
+            exn = exits[0][0]
+            ctests = cond_tests(stmts(exn.clauses[0][0])[0])
+            def is_mode_guard(t):
+                return t[0] == "bin" and t[1] in ("$mode", '"$mode"') and ((t[2] == "!=" and t[3].strip('"') == "matches") or (t[2] in ("=", "==") and t[3].strip('"') == "complete"))
+            guarded = any(is_mode_guard(t) for t in ctests)
+            if not guarded:
+                for nn, l2, c2, f2 in B.walk(lit_for, (wl,)):
+                    if nn is exn:
+                        for c in c2:
+                            if c[0].kind == "if" and c[1] is not None:
+                                for tnode in stmts(c[1]):
+                                    if tnode.kind == "cond" and any(is_mode_guard(t) for t in cond_tests(tnode)):
+                                        guarded = True
+            only_and = all(t[1] == "&&" for t in stmts(exn.clauses[0][0])[0].tests if t[0] == "conn")
+            rec("S2:prefix-exit-not-in-matches-mode", guarded and only_and,
+                ("the exit `typed text is a proper prefix of a longer literal` is taken only while completing (mode guard present): a complete word still reaches the equality with the shorter literal" if guarded and only_and else
+                 "the literal pass leaves the matcher when the typed remainder is a proper prefix of literal i, also for a COMPLETE earlier word (matches mode): with values a|abc|abcd and the word `abc`, "
+                 "the exit fires at `abcd` (longer, visited first) before the equality with `abc` is reached, so the word is not recognised"), exits[0][0].line)
             rec("S3:exit-needs-transition", exits[0][1], "the prefix exit is " + ("" if exits[0][1] else "NOT ") + "conditioned on the literal having a transition from the current state", exits[0][0].line)
+            # order inside one iteration: equality first, then the exit, then the consume step
+            order_ok = accepts[0][0].line < exits[0][0].line
+            rec("S2:equality-before-exit", order_ok, "per literal the exact match is tested before the prefix exit (when both hold -- the literal is typed exactly -- it must be consumed, or nothing after it could ever be offered)" if order_ok else "the prefix exit precedes the exact-match test: an exactly typed literal (e.g. `--opt=`) leaves the matcher instead of being consumed", accepts[0][0].line)
+            # each taken branch leaves the iteration: accept/consume continue the scan loop, the exit breaks out of it
+            def targets(acts):
+                return [a for a in acts]
+            def tg(acts, word):
+                return len(acts) == 1 and acts[0][0] == word and loop_target((wl, lit_for), acts[0]) is wl
+            acc_ok = tg(accepts[0][2], "continue") and tg(consumes[0][2], "continue") and tg(exits[0][2], "break")
+            rec("S4:branch-targets", acc_ok, f"accept {accepts[0][2]}, exit {exits[0][2]}, consume {consumes[0][2]}: accept/consume restart the scan at the new position, the exit leaves the scan", lit_for.line)
             rec("S3:accept-needs-transition", accepts[0][1], "exact match requires a transition on that literal from the current state", accepts[0][0].line)
             rec("S3:consume-needs-transition", consumes[0][1], "consuming a literal prefix requires a transition on that literal", consumes[0][0].line)
             # S4: consume advances char_index by the literal's length and takes the cell's state
@@ -728,3 +754,63 @@ def cmd_rule(repo, res, tier, rule="SK-CMD"):
     res.check(ok, rule, f"{rule}:V2:function-id-is-table-id", "the <id> of _<cmd>_cmd_<id> is id_from_cmd.get_index_of(cmd): the same numbering the tables use (CommandId, unoffset)", fn.loc())
     trim = any(n["k"] == "MethodCall" and n["method"] == "trim" for l in loops for n in A.walk(l))
     res.check(trim, rule, f"{rule}:V1:trimmed-command", "the command text is emitted after trim() (`:` when empty)", fn.loc())
+
+
+# ------------------------------------------------------------------ SK-MATCHFN (C01 F3 / C12 / C17 V5)
+def matchfn_rule(repo, res, tier, rule="SK-MATCHFN"):
+    """The prefix filter every candidate list goes through: `<fn> PREFIX CANDIDATES MATCHES` appends to MATCHES exactly the
+    candidates that extend PREFIX.  Structure required of each definition: an empty prefix passes every candidate on; otherwise one
+    loop over the candidates whose only condition for appending the candidate is the pattern test `[[ <candidate> = ${prefix}* ]]`
+    (the candidate possibly case-folded together with the prefix).  Any further condition on the way to the append drops
+    candidates that do extend the typed text."""
+    names, sets = flag_sets(repo, tier)
+    agg = {}
+
+    def rec(key, ok, why, line):
+        k = f"{rule}:{key}"
+        if k not in agg or (agg[k][0] and not ok):
+            agg[k] = (ok, why, line)
+
+    for flags in sets[:2]:
+        text, tree, funcs, _ = skeleton(repo, flags)
+        defs = funcs.get("H__MATCH_FN_NAME__H", [])
+        rec("definitions", len(defs) == 2, f"{len(defs)} definitions of the prefix matcher (case-insensitive and case-sensitive variant)", defs[0].line if defs else 0)
+        for di, d in enumerate(defs):
+            body = stmts(d.body.body) if d.body.kind == "group" else []
+            tag = f"def{di + 1}"
+            ifs = [s for s in body if s.kind == "if"]
+            if len(ifs) != 1 or ifs[0].els is None or len(ifs[0].clauses) != 1:
+                rec(f"{tag}:shape", False, "expected `if [[ -z $prefix ]]; then <all>; else <filter>; fi`", d.line)
+                continue
+            c = stmts(ifs[0].clauses[0][0])
+            tt = cond_tests(c[0]) if c and c[0].kind == "cond" else []
+            rec(f"{tag}:empty-prefix-passes-all", len(tt) == 1 and tt[0][0] == "un" and tt[0][1] == "-z" and tt[0][2] in ("$prefix", '"$prefix"'), f"[[ {c[0].text if c and c[0].kind == 'cond' else '?'} ]]", ifs[0].line)
+            thn = stmts(ifs[0].clauses[0][1])
+            ok_all = len(thn) == 1 and thn[0].kind == "simple" and any(a[0] == "matches_" and a[2] == "+=" and a[3].replace(" ", "") == '("${candidates_[@]}")' for a in B.assignments(thn[0]))
+            rec(f"{tag}:empty-prefix-appends-every-candidate", ok_all, "matches_+=(\"${candidates_[@]}\")" if ok_all else "the empty-prefix branch does not append every candidate", ifs[0].line)
+            els = stmts(ifs[0].els)
+            loops = [s for s in els if s.kind == "for"]
+            if len(loops) != 1:
+                rec(f"{tag}:filter-loop", False, f"{len(loops)} loops over the candidates in the filter branch", ifs[0].line)
+                continue
+            lp = loops[0]
+            rec(f"{tag}:loop-over-all-candidates", lp.words == ['"${candidates_[@]}"'], f"for {lp.var} in {' '.join(lp.words)}", lp.line)
+            # inside the loop: every statement is `[[ X = ${prefix}* ]] && matches_+=("$var")`, nothing else (no continue/break/if)
+            inner = stmts(lp.body)
+            good = len(inner) == 1 and inner[0].kind == "andor" and len(inner[0].rest) == 1 and inner[0].rest[0][0] == "&&" and inner[0].first.kind == "cond"
+            why = "the loop body is not the single statement `[[ candidate = ${prefix}* ]] && matches_+=(candidate)`: an extra condition or early continue drops candidates that extend the typed text"
+            if good:
+                t = cond_tests(inner[0].first)
+                app = inner[0].rest[0][1]
+                t_ok = len(t) == 1 and t[0][0] == "bin" and t[0][2] in ("=", "==") and t[0][3] in ("${prefix}*", "$prefix*") and t[0][1] in ("$" + lp.var, "${" + lp.var + ",,}", '"$' + lp.var + '"')
+                a_ok = app.kind == "simple" and any(a[0] == "matches_" and a[2] == "+=" and a[3] == '("$' + lp.var + '")' for a in B.assignments(app))
+                n_conn = sum(1 for x in inner[0].first.tests if x[0] == "conn")
+                good = t_ok and a_ok and n_conn == 0
+                why = f"[[ {inner[0].first.text} ]] && {' '.join(app.words) if app.kind == 'simple' else app.kind}" + ("" if good else ": must be exactly the prefix pattern test followed by the append of the same candidate")
+            rec(f"{tag}:only-condition-is-prefix-test", good, why, lp.line)
+            # prefix preparation: only %q quoting (and case folding together with the candidate)
+            pre = [s for s in els if s is not lp]
+            okp = all(s.kind == "simple" and all(a[0] == "prefix" and (a[3] in ("${prefix,,}",) or "printf '%q'" in a[3]) for a in B.assignments(s)) and B.assignments(s) for s in pre)
+            rec(f"{tag}:prefix-only-quoted-or-folded", okp, "before the loop the prefix is only case-folded / passed through printf %q" if okp else "the prefix is altered before filtering", ifs[0].line)
+    for k, (ok, why, line) in sorted(agg.items()):
+        res.check(ok, rule, k, why, f"bash skeleton line {line}")
